@@ -73,13 +73,18 @@ CHECKS.update({
  "C04": (EX, TRACE_TECH.replace("MpfPost", "MpcPost") + " (per-component rounding of exact dyadic components; squared-modulus bound for quotients)",
          "Complex +,-,*, z*x, z+x, integer powers, division/reciprocal/negative powers and equality recorded through libmp, operators and f-functions and judged by TLC.",
          TRACE_NOTE + " Operands have finite parts; 'a few ulps' for quotients is fixed at 8.", "DESIGN.md §4 C04"),
- "C14": (EX, "TLC trace validation: exact point results (dyadic/rational, MpiPost) of sample member points must lie in the returned interval",
+ "C14": (EX, "TLC trace validation: exact point results (dyadic/rational, MpiPost) and spec-side series enclosures (RealFun) of sample member points must lie in the returned interval",
          "Interval +,-,*,/,integer powers, abs, neg, sqrt and conversions (int, float, mpf, rational, string forms) judged by TLC for containment of the "
-         "exact result of every sampled member-point combination, endpoints included.",
-         TRACE_NOTE + " exp/log/sin/cos/tan/atan2/gamma family containment needs the spec's series enclosures (RealFun) and is not yet judged here.", "DESIGN.md §4 C14"),
- "C15": (EX, "TLC trace validation: exact point results of sample corner/interior points must lie in the returned rectangle (MpiPost)",
-         "Rectangle +,-,*,/,integer powers, abs judged by TLC for containment at all corner combinations and further member points.",
-         TRACE_NOTE + " Transcendental functions of rectangles are not yet judged.", "DESIGN.md §4 C15"),
+         "exact result of every sampled member-point combination, endpoints included; exp, log, sin, cos, tan, atan2 of intervals judged against enclosures "
+         "computed inside the specification (ivfun: a violation only when the enclosure lies wholly outside the returned interval); gamma, rgamma, loggamma, "
+         "factorial and real powers judged against the library's own point values at 3p+200 bits (ivrel, relational).",
+         TRACE_NOTE + " Two known findings (faithful-only directed rounding under iv.exp and iv.atan2) are keyed by function and by how far outside the value lies "
+         "(< 2^-10 ulp, < 2^-3 ulp); anything further outside is reported.", "DESIGN.md §4 C14"),
+ "C15": (EX, "TLC trace validation: exact point results and spec-side series enclosures (RealFun: complex exp/cos/sin/log from real enclosures) of sample corner/interior points must lie in the returned rectangle",
+         "Rectangle +,-,*,/,integer powers, abs judged by TLC for containment at all corner combinations and further member points; exp, cos, sin, log of rectangles "
+         "judged against enclosures computed inside the specification (civfun); gamma, rgamma, loggamma, factorial and complex powers against the library's point values "
+         "at 3p+200 bits (civrel, relational).",
+         TRACE_NOTE + " Known findings as for C14 (log through atan2, exp/sin/cos through exp and cosh/sinh), keyed by function and distance outside.", "DESIGN.md §4 C15"),
  "C16": (MC, "TLC exhaustive model over all order types of two intervals (IvCmp: transcribed predicates = quantified semantics) + replay of every model pair on the real iv context",
          "IvCmp is complete for order types incl. infinite endpoints; every pair with the spec's verdicts is replayed in several numeric realisations and operand encodings; "
          "operands with more bits than iv.prec are checked for soundness and for exact membership.",
